@@ -1,14 +1,56 @@
 # C11 — literals: value, type, encoding (E1, cbmc over unicode.c / tokenize.c)
+import os
 import vf, e1
 
 def main(tier, only=None):
     chk = vf.Check("C11", tier)
-    chk.bounds += ["utf8: every code point 0..0x10FFFF minus surrogates (symbolic, no sampling)"]
-    hs = [
-        e1.H("h_utf8_roundtrip", "utf8/roundtrip", unwind=6),
-        e1.H("h_utf8_decode_wellformed", "utf8/decode-wellformed", unwind=6),
-        e1.H("h_ident_classes", "ident/annexD", unwind=110),
-    ]
-    e1.run_set(chk, "c11/utf8.c", hs)
+    fams = only or ["utf8", "ident", "int", "escape", "wide"]
+    if any(f in fams for f in ("utf8", "ident")):
+        chk.bounds += ["utf8: every code point 0..0x10FFFF minus surrogates (symbolic, no sampling)"]
+        hs = [
+            e1.H("h_utf8_roundtrip", "utf8/roundtrip", unwind=6),
+            e1.H("h_utf8_decode_wellformed", "utf8/decode-wellformed", unwind=6),
+            e1.H("h_ident_classes", "ident/annexD", unwind=110),
+        ]
+        hs = [h for h in hs if h.key.split("/")[0] in fams]
+        e1.run_set(chk, "c11/utf8.c", hs)
+    hs = []
+    ND = ("__NO_CTYPE",)
+    uni = [os.path.join(vf.REPO, "unicode.c")]
+    if "int" in fams:
+        chk.bounds += ["int: convert_pp_int for every 64-bit value x {decimal, 0x, 0X, octal, 0b, 0B} x all 23 "
+                       "well-formed suffix spellings (symbolic), except decimal constants without u that exceed "
+                       "LONG_MAX (no type in C11 6.4.4.1p6); 10 ill-formed suffixes must be rejected"]
+        chk.assumptions += ["strtoul -> contract stub (returns the symbolic value, end pointer just past the digit "
+                            "sequence; base and start position are asserted); the digit text under cbmc is a "
+                            "placeholder, native replay writes the real digits and runs the real strtoul",
+                            "lits.c is compiled with -D__NO_CTYPE so that cbmc's exact ctype models are used (glibc's "
+                            "macros go through __ctype_b_loc(), which has no body in cbmc)"]
+        hs += [e1.H("h_int_ladder", "int/type-ladder", unwind=8, unwindset=("build_number.0:4", "build_number.3:4"),
+                    defines=ND, replace_calls=("strtoul:stub_strtoul",), timeout=600),
+               e1.H("h_int_badsuffix", "int/bad-suffix-rejected", unwind=8, defines=ND,
+                    replace_calls=("strtoul:stub_strtoul",), timeout=600)]
+    if "escape" in fams:
+        chk.bounds += ["escape: read_escaped_char on every 5-byte sequence after the backslash (simple escapes, octal "
+                       "1..3 digits, hex 1..4 digits)"]
+        hs += [e1.H("h_escape", "escape/value-and-length", unwind=8, defines=ND, timeout=600)]
+    if "wide" in fams:
+        chk.bounds += ['wide: u"c", U"c", L\'c\' for every scalar value c except NUL, newline, backslash and the '
+                       "closing quote (which need an escape)"]
+        hs += [e1.H("h_utf16", "wide/utf16-surrogates", unwind=8, defines=ND, timeout=600),
+               e1.H("h_utf32", "wide/utf32", unwind=8, defines=ND, timeout=600),
+               e1.H("h_wchar", "wide/wchar-constant", unwind=8, defines=ND, timeout=600)]
+    if hs:
+        e1.run_set(chk, "c11/lits.c", hs, extra_src=uni, workers=int(os.environ.get("VERIF_WORKERS", "8")))
+    chk.outside += ["floating constants (strtold text -> value), digit text -> value (strtoul)",
+                    "hex escapes longer than 4 digits / octal escapes > 255 (out of range for the element type: "
+                    "constraint violations), universal character names (convert_universal_chars)",
+                    "u'c' (masked to 16 bits in tokenize()), u8 prefix, literals with more than one character, "
+                    "concatenation of adjacent literals (preprocess.c join_adjacent_string_literals), "
+                    "string_initializer in parse.c",
+                    "BOM / CRLF / splice handling: see C18 splice/*"]
+    if os.environ.get("VERIF_VERBOSE"):
+        for o in chk.obl:
+            print("  %-28s %-12s %6.1fs  %s" % (o["key"], o["status"], o["secs"], o["detail"][:170]))
     return chk.finish()
 replay = vf.generic_replay
